@@ -163,7 +163,7 @@ pub fn render_config(p: &Project, r: &mut Rng) -> String {
         }
         if !t.words.is_empty() {
             s.push_str(if r.chance(1, 2) { " [" } else { "[" });
-            let list: Vec<String> = t.words.iter().map(|w| format!("\"{w}\"")).collect();
+            let list: Vec<String> = t.words.iter().map(|w| format!("\"{w}{}\"", if r.chance(1, 8) { ".wsca" } else { "" })).collect();
             s.push_str(&list.join(if r.chance(1, 2) { ", " } else { "," }));
             if r.chance(1, 5) {
                 s.push(',');
@@ -177,7 +177,7 @@ pub fn render_config(p: &Project, r: &mut Rng) -> String {
                 s.push_str("\n    # next file");
             }
             s.push_str(if multiline { "\n    " } else { " " });
-            s.push_str(&format!("\"{}\"", e.file));
+            s.push_str(&format!("\"{}{}\"", e.file, if r.chance(1, 8) { ".rsca" } else { "" }));
             if let Some((k, names)) = &e.filter {
                 s.push_str(&format!(" {k} {{"));
                 let list: Vec<String> = names.iter().map(|n| format!("\"{n}\"")).collect();
@@ -189,6 +189,9 @@ pub fn render_config(p: &Project, r: &mut Rng) -> String {
             }
             if i + 1 < t.entries.len() || r.chance(1, 3) {
                 s.push(',');
+                if multiline && r.chance(1, 10) {
+                    s.push_str("  # see notes");
+                }
             }
         }
         s.push('\n');
@@ -202,10 +205,11 @@ pub fn render_config(p: &Project, r: &mut Rng) -> String {
     s
 }
 
-const TAGS: [&str; 10] = ["proto", "latin", "old-spanish", "spanish", "alpha", "beta", "gamma_2", "pgmc", "nwg", "x1"];
+const TAGS: [&str; 13] = ["proto", "latin", "old-spanish", "spanish", "alpha", "beta", "gamma_2", "pgmc", "nwg", "x1", "lat", "PGmc", "Old_High-German"];
 
 pub fn gen_project(d: &Data, r: &mut Rng, bad: Option<&str>) -> Project {
-    let ntags = r.range(1, 4);
+    // the stated quantifier is 1-4 tags; one project in ten is larger
+    let ntags = if r.chance(1, 10) { r.range(5, 6) } else { r.range(1, 4) };
     let mut names: Vec<&str> = TAGS.to_vec();
     r.shuffle(&mut names);
     // rule files
@@ -223,6 +227,7 @@ pub fn gen_project(d: &Data, r: &mut Rng, bad: Option<&str>) -> Project {
     let mut word_files = BTreeMap::new();
     let wstems = ["lex", "lexicon/core", "../shared/loans", "extra"];
     let nw = r.range(1, 4);
+    let many_word_files = r.chance(1, 8);
     let mut wlist: Vec<String> = Vec::new();
     for i in 0..nw {
         word_files.insert(wstems[i].to_string(), c19gen::gen_words(d, r));
@@ -240,7 +245,7 @@ pub fn gen_project(d: &Data, r: &mut Rng, bad: Option<&str>) -> Project {
     for ti in 0..ntags {
         let parent = if ti > 0 && r.chance(3, 4) { Some(tags[r.below(ti)].name.clone()) } else { None };
         let words = if parent.is_none() {
-            let k = r.range(1, 2.min(wlist.len()));
+            let k = r.range(1, (if many_word_files { 3 } else { 2 }).min(wlist.len()));
             let mut w = wlist.clone();
             r.shuffle(&mut w);
             w.truncate(k);
@@ -250,8 +255,8 @@ pub fn gen_project(d: &Data, r: &mut Rng, bad: Option<&str>) -> Project {
         } else {
             vec![]
         };
-        let alias = if parent.is_none() && with_alias && r.chance(3, 4) { Some("rom".to_string()) } else { None };
-        let ne = r.range(1, 3);
+        let alias = if with_alias && ((parent.is_none() && r.chance(3, 4)) || (parent.is_some() && r.chance(1, 5))) { Some("rom".to_string()) } else { None };
+        let ne = if r.chance(1, 10) { r.range(4, 5) } else { r.range(1, 3) };
         let mut entries = Vec::new();
         for _ in 0..ne {
             let file = r.pick(&stem_list).clone();
@@ -261,7 +266,7 @@ pub fn gen_project(d: &Data, r: &mut Rng, bad: Option<&str>) -> Project {
                 let k = if r.chance(1, 2) { '!' } else { '~' };
                 let mut idx: Vec<usize> = (0..named.len()).collect();
                 r.shuffle(&mut idx);
-                let cnt = r.range(1, named.len().min(3));
+                let cnt = r.range(1, named.len().min(4));
                 idx.truncate(cnt);
                 Some((k, idx.iter().map(|&i| random_case(&named[i].name, r)).collect()))
             } else {
@@ -270,6 +275,18 @@ pub fn gen_project(d: &Data, r: &mut Rng, bad: Option<&str>) -> Project {
             entries.push(Entry { file, filter });
         }
         tags.push(Tag { name: names[ti].to_string(), parent, alias, words, entries });
+    }
+    if r.chance(1, 6) {
+        // a tag nobody pipes from may also romanise its output (@into and @from)
+        let leaves: Vec<usize> = (0..tags.len()).filter(|&i| !tags.iter().any(|t| t.parent.as_deref() == Some(tags[i].name.as_str()))).collect();
+        if !leaves.is_empty() {
+            let li = *r.pick(&leaves);
+            let n = r.range(1, 2);
+            let into: Vec<String> = if r.chance(1, 2) { vec![r.pick(&crate::gen::ALIAS_INTO).to_string()] } else { vec![] };
+            let from: Vec<String> = (0..n).map(|_| r.pick(&crate::gen::ALIAS_FROM).to_string()).collect();
+            alias_files.insert("leafrom".to_string(), (into, from));
+            tags[li].alias = Some("leafrom".to_string());
+        }
     }
     // the config lists tags in a random order (a child may precede its parent)
     if r.chance(1, 2) {
